@@ -43,6 +43,13 @@ def run_shard(spec):
             acc.prereq({'stage': e.stage, 'error': str(e)[-1500:], 'schema': text[:1500]})
             return acc.done()
         acc.count('schema_files_compiled')
+        # the paddings prophyc emits into the raw header (parts after dynamic fields, optional flag/value gaps):
+        # offsetof / sizeof of every struct, part and union as compiled by g++ vs the reference layout
+        try:
+            from .c08 import compare_raw_layout
+            compare_raw_layout(acc, PROP, wd, sch, w, names, tagmap, gen, compilers=('g++',), prefix='raw:')
+        except cppdrv.BuildFailed as e:
+            acc.prereq({'stage': 'raw layout ' + e.stage, 'error': str(e)[-800:]})
         got = {}
         for ln in p.stdout.decode().split('\n'):
             a = ln.split()
